@@ -69,10 +69,12 @@ LEVEL_NOTE = ("trusted: Lean kernel (propext, Quot.sound, Classical.choice), BTr
               "to the driver as ranked segment lists), sampled correspondence, the harness")
 TECHNIQUE = "Lean 4 refinement invariant + loop invariants (prefix expansion, memoised counting) + differential correspondence"
 
-SEGS = ["", "a", "ab", "abc", "b", "bc", "c", "é", "中", "x", "A", "0", " ", "a.b", "a" * 40]
+SEGS = ["", "a", "ab", "abc", "b", "bc", "c", "é", "中", "x", "A", "0", " ", "a.b", "a" * 40,
+        "a\x1fb", "\x1f", "a\x00b", "a,b", "a|b", "a\tb", "a\nb"]     # separators a memo key might be joined with
 SEG_RANK = {s: i for i, s in enumerate(SEGS)}
 FACET_POOL = ["a", "ab", "abc", "b", "bc", "c", "a:b", "a:b:c", "ab:c", "bc:c", "a:bc", "é", "é:中", "中",
-              "a:b:c:x", "c:a", "", "a:", ":a", "x", "A", "0", "0:0", " ", "a.b", "a" * 40, "a:" + "a" * 40]
+              "a:b:c:x", "c:a", "", "a:", ":a", "x", "A", "0", "0:0", " ", "a.b", "a" * 40, "a:" + "a" * 40,
+              "a\x1fb", "a,b", "a|b", "a\x00b", "a\tb", "a\nb", "\x1f"]
 PATH_EXTRA = ["a:b:c:x:x", "a:x", "ab:x", "abc:x", "x:a", "b:c", "c:a:b", "é:中:a", "a::b", ":", "x:x", "A:a", "0:a", " : ",
               "a.b:a"]
 IDS64 = list(range(12)) + [2 ** 31 - 1, -2 ** 31, 2 ** 62]
@@ -386,7 +388,9 @@ def gen_mem(rng, tier, idx):
     r = rng.random()
     if r < 0.25:
         facets = rng.choice([["ab", "c", "a", "bc"], ["a", "bc", "ab", "c", "abc"], ["é", "中", "é:x", "x"], ["a:b", "c", "a", "b:c"], ["a", "ab", "abc"],
-                             ["a", "a:b", "a:b:c", "a:b:c:x"], ["é", "é:中", "中"]])
+                             ["a", "a:b", "a:b:c", "a:b:c:x"], ["é", "é:中", "中"],
+                             ["a", "b", "a\x1fb", "c"], ["a", "b", "a,b"], ["a", "b", "a|b", "a\x00b"],
+                             ["a", "b", "a\tb", "a\nb"]])
         facets = facets[:rng.randrange(2, len(facets) + 1)]
     else:
         facets = rng.sample(FACET_POOL, rng.randrange(1, 8))
@@ -436,7 +440,13 @@ class FacetImpl(object):
             disc = "x"
         self.opt = bool(cfg.get("opt", 1))
         self.cfg = cfg
-        self.idx = FacetIndex(disc, [dec(t) for t in cfg.get("facets", [])], family=self.fam)
+        flist = [dec(t) for t in cfg.get("facets", [])]
+        import zlib
+        shape = zlib.crc32(repr(flist).encode()) % 6
+        # the configured facets arrive as any iterable: list, tuple, set, generator, iterator (seeded C13_J
+        # iterated the argument twice)
+        facets_arg = {0: tuple(flist), 1: set(flist), 2: (f for f in flist), 3: iter(flist)}.get(shape, flist)
+        self.idx = FacetIndex(disc, facets_arg, family=self.fam)
         if "thr" in cfg:
             self.idx.tree_threshold = int(cfg["thr"])
 
